@@ -204,9 +204,17 @@ func newRepoWorld(row *repoRow) (*repoWorld, error) {
 	r.Storer.SetReference(plumbing.NewHashReference("refs/heads/diverged", rw.commitD))
 	r.Storer.SetReference(plumbing.NewSymbolicReference(plumbing.HEAD, "refs/heads/master"))
 	idx := &index.Index{Version: 2}
+	if row.Op == "sparse2" {
+		idx.Version = 3 // skip-worktree is an extended flag
+	}
 	for _, p := range rw.paths {
 		if e := row.I[p]; e != "none" {
-			idx.Entries = append(idx.Entries, &index.Entry{Name: p, Hash: rw.blobHash[e[2:]], Mode: entryMode(e)})
+			ent := &index.Entry{Name: p, Hash: rw.blobHash[e[2:]], Mode: entryMode(e)}
+			// sparse2: the worktree is already sparse - tracked paths without a file carry the skip-worktree bit
+			if row.Op == "sparse2" && row.W[p] == "none" {
+				ent.SkipWorktree = true
+			}
+			idx.Entries = append(idx.Entries, ent)
 		}
 	}
 	if err := r.Storer.SetIndex(idx); err != nil {
@@ -438,7 +446,9 @@ func (rw *repoWorld) run(row *repoRow) error {
 			return nil
 		}
 		return err
-	case "sparse":
+	case "sparse-keep":
+		return w.Reset(&git.ResetOptions{Commit: rw.commitT, Mode: git.KeepReset, SparseDirs: strings.Split(row.Arg[0], "+")})
+	case "sparse", "sparse2":
 		var dirs []string
 		for _, d := range strings.Split(row.Arg[0], "+") {
 			dirs = append(dirs, d)
@@ -540,11 +550,11 @@ func multi(row *repoRow) string { return "" }
 
 var repoOpsOf = map[string][]string{
 	"C25": {"reset-hard", "checkout-force", "checkout-force-create"},
-	"C30": {"checkout", "checkout-twin", "checkout-create", "reset-merge", "reset-keep", "reset-merge-head", "reset-keep-head"},
+	"C30": {"checkout", "checkout-twin", "checkout-create", "reset-merge", "reset-keep", "reset-merge-head", "reset-keep-head", "sparse-keep"},
 	"C28": {"add", "add-all", "remove", "move", "clean", "commit"},
 	"C27": {"status"},
-	"C32": {"sparse"},
-	"C29": {"reset-hard", "checkout-force", "checkout-force-create", "checkout", "checkout-twin", "checkout-create", "reset-merge", "reset-keep", "add", "add-all", "remove", "move", "clean", "commit", "sparse",
+	"C32": {"sparse", "sparse2"},
+	"C29": {"reset-hard", "checkout-force", "checkout-force-create", "checkout", "checkout-twin", "checkout-create", "reset-merge", "reset-keep", "add", "add-all", "remove", "move", "clean", "commit", "sparse", "sparse2", "sparse-keep",
 		"pull", "merge-ff", "merge-nonff", "merge-unsupported", "reset-merge-head", "reset-keep-head", "reset-hard-badsparse", "reset-merge-badsparse", "reset-keep-badsparse", "reset-mixed-badsparse",
 		"reset-hard-missing", "checkout-create-existing", "checkout-missing-branch", "checkout-branch-and-hash", "checkout-force-missing-hash"},
 }
@@ -583,9 +593,26 @@ func repoCmd(args []string) error {
 	if max < len(rows) {
 		// a fixed, seed-independent stratified subset (every k-th row of the table in TLC's order), so
 		// that the quick tier explores the same situations for every seed; the seed varies the git leg
-		var sub []*repoRow
-		for k := 0; k < max; k++ {
-			sub = append(sub, rows[k*len(rows)/max])
+		// operations with few rows (e.g. sparse2: 36) are kept whole; the others share the rest of the budget
+		perOp := map[string]int{}
+		for _, r0 := range rows {
+			perOp[r0.Op]++
+		}
+		var sub, rest []*repoRow
+		for _, r0 := range rows {
+			if perOp[r0.Op] <= 200 {
+				sub = append(sub, r0)
+			} else {
+				rest = append(rest, r0)
+			}
+		}
+		if left := max - len(sub); left > 0 && len(rest) > 0 {
+			if left > len(rest) {
+				left = len(rest)
+			}
+			for k := 0; k < left; k++ {
+				sub = append(sub, rest[k*len(rest)/left])
+			}
 		}
 		rows = sub
 	}
